@@ -212,6 +212,36 @@ def exhaustion_family(ctx):
             ctx.count("exhaustion_family_orders")
 
 
+def parameter_rule_family(ctx):
+    """rules that write parameters (never species): a rate constant kept equal to a product of two others by an assignment
+    rule, one driven by an ODE rule.  No rule overwrites a species, so every row change is a combination of the reactions'
+    stoichiometries, counts stay integer and A + B is conserved - in every simulator, the volume-aware ones included."""
+    T = np.linspace(0, 4.0, 41)
+    for rules in ([{"type": "assignment", "attrs": {"equation": "kf = kfb*gain"}}],
+                  [{"type": "assignment", "attrs": {"equation": "kf = kfb*gain"}}, {"type": "ode", "attrs": {"equation": "0.1*gain", "target": "kr"}}]):
+        spec = {"species": ["A", "B"], "reactions": [
+            {"reactants": ["A"], "products": ["B"], "prop": {"type": "massaction", "k": "kf"}},
+            {"reactants": ["B"], "products": ["A"], "prop": {"type": "massaction", "k": "kr"}}],
+            "params": {"kf": 0.0, "kr": 1.0, "kfb": 1.25, "gain": 2.0}, "ic": {"A": 12, "B": 8}, "rules": rules, "needs_safe": False}
+        for kind, safe in (("ssa", False), ("ssa", True), ("volume", False), ("volume", True), ("delay", False), ("delayvolume", False)):
+            for seed in (11, 12):
+                ctx.begin_case({"spec": spec, "kind": kind, "grid": [float(t) for t in T], "seed": seed, "safe": safe, "family": "parameter rules"})
+                M = build_model(spec)
+                r = simcorr.run_real(M, kind, T, seed, float(T[1] - T[0]), safe=safe)
+                ctx.evaluated()
+                before = len(ctx.violations)
+                rows = r["rows"]
+                x0 = np.array([float(spec["ic"][s_]) for s_ in M.get_species_list()])
+                if len(rows) and np.any(rows[0] != x0):
+                    ctx.violation("first-row/" + kind, "the first reported row %s is not the initial state %s (no rule writes a species)" % (rows[0].tolist(), x0.tolist()),
+                                  {"spec": spec, "kind": kind, "grid": [float(t) for t in T], "seed": seed, "safe": safe})
+                    return
+                monitor(ctx, spec, M, kind, T, seed, safe, rows, kind)
+                if len(ctx.violations) > before:
+                    return
+        ctx.count("parameter_rule_family")
+
+
 def run(ctx):
     rng = ctx.rng
     nnet, nseeds = (24, 3) if ctx.quick() else (300, 12)
@@ -251,6 +281,7 @@ def run(ctx):
         one(ctx, chain, kind, np.linspace(0, 5.0, 51), [rng.randint(1, 2**31) for _ in range(2)], False)
     complement_family(ctx)
     exhaustion_family(ctx)
+    parameter_rule_family(ctx)
 
 
 def replay(ctx, obj):
